@@ -562,7 +562,10 @@ func filterpath(peer *peer, path, old *table.Path) *table.Path {
 		return nil
 	}
 
-	if !peer.isRouteServerClient() && isASLoop(peer, path) {
+	// (a route-server client's best path comes from a table lookup that has
+	// left such paths out already, but the additional paths sent with ADD-PATH
+	// reach this point unfiltered)
+	if isASLoop(peer, path) {
 		// Do not filter local (static) routes with as-path loop
 		// if configured to bypass these checks in the peer
 		// as-path options config.
